@@ -180,7 +180,9 @@ def values_of(reg):
     return ("mcall", S(f"self.problem.{reg}"), "values", (), ())
 
 
-def r_horizon(ctx):
+def r_horizon(ctx, exact=False):
+    """exact: the user horizon must bound the horizon variable and nothing more (C07: the makespan objective minimises that
+    variable - pinned to the user's value it is a constant, nothing is optimised and the two optimisers return arbitrary models)"""
     where = "SchedulingSolver.initialize"
     for run in init_runs(ctx, "R-HORIZON"):
         groups = stream_groups(run)
@@ -214,7 +216,13 @@ def r_horizon(ctx):
         seen += 1
         want = le(hz, S("self.horizon"))
         em = And(*[e.term for e in run.emissions if e.owner == SELF and not e.loops and not e.guards])
-        ok, wit, _ = decide_equiv(ctx, em, want, mode="implies")
+        ok, wit, _ = decide_equiv(ctx, em, want, mode="equiv" if exact else "implies")
+        if not ok and exact and decide_equiv(ctx, em, want, mode="implies")[0]:
+            ctx.violation("R-HORIZON", "SchedulingProblem.__init__", "_horizon is only bounded by the user horizon",
+                          f"with a user horizon the problem asserts {show(norm(em))[:200]}, which is stronger than `_horizon <= horizon`: "
+                          f"the horizon variable is what ObjectiveMinimizeMakespan minimises, it must stay free below the user's bound",
+                          first_line(ctx.project, "SchedulingProblem"))
+            continue
         if ok:
             ctx.ok("R-HORIZON", "SchedulingProblem.__init__ horizon given", sample={"asserted": show(norm(em))[:200]})
         else:
